@@ -62,9 +62,18 @@ func (w *World) VerifyFunc(ct *Contract) (res *FuncResult) {
 	fr.retVals = rets
 	fr.loopHdr = nil
 	for k, en := range ct.Ensures {
+		if en.Defines {
+			continue
+		}
 		f, watch := e.evalBoolWatch(e.hostEnv(fr), en.Expr, out, entry, en)
 		o := e.ob(fr, "post", fmt.Sprintf("post#%d", k), reach, f, en.Src, fn.Pos())
 		o.Watch = append(append(e.paramWatch(fr), watch...), e.contractWatch(fr, out, entry)...)
+		// cover: the premise of an implication must be reachable, otherwise the clause says nothing
+		if b, ok := en.Expr.(CBinary); ok && b.Op == "==>" {
+			p := e.evalBool(fr, b.L, out, entry, en)
+			c := e.ob(fr, "cover", fmt.Sprintf("post#%d.cover", k), reach, not(p), "premise reachable: "+b.L.String(), fn.Pos())
+			c.ExpectSat = true
+		}
 	}
 	// frame: every component changed must be covered by modifies (default: nothing)
 	if reach != "false" && ct.ModSet {
